@@ -702,7 +702,7 @@ func check(prop, tier string) int {
 	stallIsHang = pl.StallIsHang
 	timeout := time.Duration(pl.JobTimeoutSec) * time.Second
 	if timeout == 0 {
-		timeout = 10 * time.Minute
+		timeout = 30 * time.Minute
 	}
 	nPer := pl.Quick
 	seeds := []uint64{seed}
